@@ -1258,7 +1258,7 @@ def run(ctx):
                     "  let P := paging_of (c_paging c) in let fuel := (need P None (c_tree c) + 3)%nat in\n"
                     "  let w := with_faults (healthy E1 (c_token c) (server_table E1 (c_site c) (c_drive c) P (c_tree c))) (ob_faults o) in\n"
                     "  let '(r, s1) := run E1 w (the_prog E1 fuel c) st0 in\n"
-                    "  (check_obs E1 c o, match r with Ok l => (0, List.length l, None) | Raise e => (1, 0, Some e) end,\n"
+                    "  (check_obs E1 c o, match r with Ok l => (0%nat, List.length l, None) | Raise e => (1%nat, 0%nat, Some e) end,\n"
                     "   List.length (urls s1), opened s1, closed s1).\n"
                     "Eval vm_compute in (map view (c_obs c)).\n")
             okm, mout = ctx.coq_eval(f"disagree_{i}", mtxt, timeout=300)
